@@ -27,7 +27,9 @@ ALPHA = {
 
 def bounds(tier):
     if tier == "quick":
-        return dict(spaces=[dict(enz="BpiI", words=5, kmax=2), dict(enz="BpiI", words=4, kmax=3), dict(enz="SapI", words=5, kmax=2),
+        return dict(modes="k<=2 spaces: ids distinct / shared / default, identical twins, fully annotated participants, participants stored rotated and half of them in lower case; "
+                          "k=3: distinct, twins, and shared / default ids where two modules are left over",
+                    spaces=[dict(enz="BpiI", words=5, kmax=2), dict(enz="BpiI", words=4, kmax=3), dict(enz="SapI", words=5, kmax=2),
                             dict(enz="BspD6I", words=4, kmax=2)])
     return dict(spaces=[dict(enz="BpiI", words=6, kmax=2), dict(enz="BpiI", words=5, kmax=3),
                         dict(enz="SapI", words=5, kmax=2), dict(enz="SapI", words=5, kmax=3),
